@@ -1,1 +1,648 @@
-fn main(){ mmv::hi(); }
+//! Check runner: `runner <Cxx> quick|thorough` or `runner <Cxx> --replay <file>`.
+//! Drivers: replay of the committed corpus, proptest (random histories), bounded-exhaustive
+//! enumeration, fault enumeration. Writes /verif/evidence/<id>.json.
+
+use mmv::case::{Case, Engine, Prop};
+use mmv::ctx::{Ctx, NS, S, SNAMES};
+use mmv::dispatch::{capacity_of, caps_for_kind, run_case};
+use mmv::plan::{campaigns, nontrivial, rule_text, Campaign};
+use mmv::tl;
+use proptest::prelude::*;
+use proptest::strategy::ValueTree;
+use proptest::test_runner::{Config, RngSeed, TestCaseError, TestError, TestRunner};
+use std::collections::HashSet;
+use std::fmt::Write as _;
+use std::path::{Path, PathBuf};
+use std::sync::atomic::{AtomicBool, Ordering};
+use std::time::Instant;
+
+mod enumerate;
+mod json;
+
+#[global_allocator]
+static ALLOC: tl::CountingAlloc = tl::CountingAlloc;
+
+const WORKERS: usize = 16;
+
+fn verif_dir() -> PathBuf {
+    std::env::var("VERIF_DIR").map(PathBuf::from).unwrap_or_else(|_| PathBuf::from("/verif"))
+}
+
+pub struct Agg {
+    pub evaluations: u64,
+    pub cases: u64,
+    pub nt: HashSet<u64>,
+    pub st: [u64; NS],
+    pub checks: u64,
+    pub foreign: u64,
+    pub discards: u64,
+    pub samples: Vec<(Case, usize)>,
+    pub violation: Option<(Case, String, String)>,
+    pub known_hits: Vec<String>,
+    pub fault_positions_skipped: u64,
+    pub by_kind: std::collections::BTreeMap<String, u64>,
+    pub by_cap: std::collections::BTreeMap<usize, u64>,
+}
+
+
+impl Agg {
+    fn new() -> Agg {
+        Agg {
+            evaluations: 0,
+            cases: 0,
+            nt: HashSet::new(),
+            st: [0; NS],
+            checks: 0,
+            foreign: 0,
+            discards: 0,
+            samples: vec![],
+            violation: None,
+            known_hits: vec![],
+            fault_positions_skipped: 0,
+            by_kind: Default::default(),
+            by_cap: Default::default(),
+        }
+    }
+    fn absorb_ctx(&mut self, case: &Case, cx: &Ctx, armed: Prop) {
+        self.evaluations += 1;
+        for i in 0..NS {
+            self.st[i] += cx.st[i];
+        }
+        self.checks += cx.checks;
+        self.foreign += cx.foreign;
+        if cx.discard {
+            self.discards += 1;
+        }
+        let n = capacity_of(case);
+        if nontrivial(armed, &cx.st, n) {
+            let fresh = self.nt.insert(case.hash64());
+            if fresh && self.samples.len() < 2 {
+                self.samples.push((case.clone(), n));
+            }
+        }
+        *self.by_kind.entry(mmv::case::KINDS[case.kind as usize % 6].to_string()).or_insert(0) += 1;
+        *self.by_cap.entry(n).or_insert(0) += 1;
+    }
+    fn merge(&mut self, o: Agg) {
+        self.evaluations += o.evaluations;
+        self.cases += o.cases;
+        self.nt.extend(o.nt);
+        for i in 0..NS {
+            self.st[i] += o.st[i];
+        }
+        self.checks += o.checks;
+        self.foreign += o.foreign;
+        self.discards += o.discards;
+        for s in o.samples {
+            if self.samples.len() < 4 {
+                self.samples.push(s);
+            }
+        }
+        if self.violation.is_none() {
+            self.violation = o.violation;
+        }
+        self.known_hits.extend(o.known_hits);
+        self.fault_positions_skipped += o.fault_positions_skipped;
+        for (k, v) in o.by_kind {
+            *self.by_kind.entry(k).or_insert(0) += v;
+        }
+        for (k, v) in o.by_cap {
+            *self.by_cap.entry(k).or_insert(0) += v;
+        }
+    }
+}
+
+/// Known findings: lines of /verif/known_findings.jsonl with "status":"known".
+pub struct Known {
+    pub sigs: Vec<(String, String, String)>, // property, signature, what
+}
+
+fn json_field(line: &str, key: &str) -> Option<String> {
+    let pat = format!("\"{key}\"");
+    let i = line.find(&pat)?;
+    let rest = &line[i + pat.len()..];
+    let c = rest.find(':')?;
+    let rest = rest[c + 1..].trim_start();
+    let rest = rest.strip_prefix('"')?;
+    let mut out = String::new();
+    let mut esc = false;
+    for ch in rest.chars() {
+        if esc {
+            out.push(ch);
+            esc = false;
+        } else if ch == '\\' {
+            esc = true;
+        } else if ch == '"' {
+            return Some(out);
+        } else {
+            out.push(ch);
+        }
+    }
+    None
+}
+
+fn load_known() -> Known {
+    let mut sigs = vec![];
+    if let Ok(t) = std::fs::read_to_string(verif_dir().join("known_findings.jsonl")) {
+        for line in t.lines() {
+            if json_field(line, "status").as_deref() == Some("known") {
+                if let (Some(p), Some(s)) = (json_field(line, "property"), json_field(line, "signature")) {
+                    sigs.push((p, s, json_field(line, "what").unwrap_or_default()));
+                }
+            }
+        }
+    }
+    Known { sigs }
+}
+
+impl Known {
+    fn matches(&self, prop: Prop, sig: &str) -> Option<&str> {
+        self.sigs.iter().find(|(p, s, _)| *p == prop.name() && s == sig).map(|(_, _, w)| w.as_str())
+    }
+}
+
+fn mix(a: u64, b: u64) -> u64 {
+    let mut x = a ^ b.wrapping_mul(0x9E37_79B9_7F4A_7C15);
+    x ^= x >> 30;
+    x = x.wrapping_mul(0xBF58_476D_1CE4_E5B9);
+    x ^= x >> 27;
+    x = x.wrapping_mul(0x94D0_49BB_1331_11EB);
+    x ^ (x >> 31)
+}
+
+/// Execute one case once. Returns the context.
+fn exec(case: &Case, armed: Prop, trace: bool) -> Ctx {
+    let mut cx = Ctx::new(armed, trace);
+    run_case(case, &mut cx);
+    cx
+}
+
+/// Outcome of evaluating one generated case (for fault campaigns: the whole enumeration).
+enum Verdict {
+    Pass,
+    Fail(Case, String, String),
+}
+
+fn evaluate(case: &Case, armed: Prop, camp: &Campaign, agg: Option<&mut Agg>, known: &Known) -> Verdict {
+    let mut local = Agg::new();
+    let agg = match agg {
+        Some(a) => a,
+        None => &mut local,
+    };
+    agg.cases += 1;
+    let mut c = case.clone();
+    c.fuse = -1;
+    let cx = exec(&c, armed, false);
+    agg.absorb_ctx(&c, &cx, armed);
+    if let Some(v) = &cx.viol {
+        let sig = cx.sig.clone().unwrap_or_default();
+        if let Some(w) = known.matches(armed, &sig) {
+            agg.known_hits.push(format!("{sig}: {w}"));
+        } else {
+            return Verdict::Fail(c, v.clone(), sig);
+        }
+    }
+    if camp.fault {
+        let t = tl::fuse_ticks();
+        let positions: Vec<i64> = if t <= 600 {
+            (0..t as i64).collect()
+        } else {
+            let stride = (t / 600 + 1) as i64;
+            agg.fault_positions_skipped += t - t / stride as u64;
+            (0..t as i64).step_by(stride as usize).collect()
+        };
+        for p in positions {
+            c.fuse = p as i32;
+            let cx = exec(&c, armed, false);
+            agg.absorb_ctx(&c, &cx, armed);
+            if let Some(v) = &cx.viol {
+                let sig = cx.sig.clone().unwrap_or_default();
+                if let Some(w) = known.matches(armed, &sig) {
+                    agg.known_hits.push(format!("{sig}: {w}"));
+                } else {
+                    return Verdict::Fail(c, v.clone(), sig);
+                }
+            }
+        }
+    }
+    Verdict::Pass
+}
+
+fn univ_for(n: usize, sel: u8) -> u8 {
+    let u = match sel % 4 {
+        0 => n.saturating_sub(1),
+        1 => n,
+        2 => n + 1,
+        _ => n + 3,
+    };
+    u.max(1).min(24) as u8
+}
+
+fn strategy(prop: Prop, camp: Campaign) -> impl Strategy<Value = Case> {
+    let max = camp.max_ops;
+    (0..camp.kinds.len(), 0u8..8, 0u8..5, 0u8..4, any::<u8>(), proptest::collection::vec(any::<[u8; 4]>(), 0..=max)).prop_map(move |(ki, cap, cap2, us, mode, ops)| {
+        let kind = camp.kinds[ki];
+        let l = caps_for_kind(kind);
+        let cap = match camp.caps {
+            Some(cs) => cs[cap as usize % cs.len()] % l.len() as u8,
+            None => cap % l.len() as u8,
+        };
+        let mut c = Case { engine: camp.engine, prop, kind, cap, cap2, univ: 1, mode, fuse: -1, ops };
+        c.univ = univ_for(capacity_of(&c), us);
+        c
+    })
+}
+
+fn run_campaign(prop: Prop, camp: &Campaign, tier: &str, seed: u64, ci: usize, stop: &AtomicBool, known: &Known) -> Agg {
+    let cases = if tier == "thorough" { camp.cases.1 } else { camp.cases.0 };
+    let scale: f64 = std::env::var("VERIF_SCALE").ok().and_then(|s| s.parse().ok()).unwrap_or(1.0);
+    let cases = ((cases as f64) * scale).max(1.0) as u32;
+    let mut total = Agg::new();
+    std::thread::scope(|sc| {
+        let mut hs = vec![];
+        for wk in 0..WORKERS {
+            let camp = camp.clone();
+            hs.push(
+                std::thread::Builder::new()
+                    .stack_size(64 << 20)
+                    .spawn_scoped(sc, move || {
+                        let mut agg = Agg::new();
+                        let cfg = Config {
+                            cases,
+                            failure_persistence: None,
+                            rng_seed: RngSeed::Fixed(mix(mix(seed, prop as u64 * 1000 + ci as u64), wk as u64)),
+                            max_shrink_iters: 20_000,
+                            max_local_rejects: 1_000_000,
+                            max_global_rejects: 1_000_000,
+                            ..Config::default()
+                        };
+                        let mut runner = TestRunner::new(cfg);
+                        let failed = std::cell::Cell::new(false);
+                        let aggc = std::cell::RefCell::new(&mut agg);
+                        let res = runner.run(&strategy(prop, camp.clone()), |case| {
+                            if stop.load(Ordering::Relaxed) && !failed.get() {
+                                return Ok(());
+                            }
+                            let v = if failed.get() {
+                                // shrinking: do not count
+                                evaluate(&case, prop, &camp, None, known)
+                            } else {
+                                let mut a = aggc.borrow_mut();
+                                evaluate(&case, prop, &camp, Some(&mut **a), known)
+                            };
+                            match v {
+                                Verdict::Pass => Ok(()),
+                                Verdict::Fail(_, msg, _) => {
+                                    failed.set(true);
+                                    stop.store(true, Ordering::Relaxed);
+                                    Err(TestCaseError::fail(msg))
+                                }
+                            }
+                        });
+                        drop(aggc);
+                        if let Err(TestError::Fail(_, minimal)) = res {
+                            // re-evaluate the minimal case to obtain the exact failing (case, fuse)
+                            let minimal = ddmin(minimal, prop, &camp, known);
+                            if let Verdict::Fail(c, msg, sig) = evaluate(&minimal, prop, &camp, None, known) {
+                                agg.violation = Some((c, msg, sig));
+                            }
+                        } else if let Err(TestError::Abort(r)) = res {
+                            eprintln!("proptest aborted: {r}");
+                        }
+                        agg
+                    })
+                    .unwrap(),
+            );
+        }
+        for h in hs {
+            match h.join() {
+                Ok(a) => total.merge(a),
+                Err(e) => {
+                    let msg = e.downcast_ref::<String>().cloned().or_else(|| e.downcast_ref::<&str>().map(|s| s.to_string())).unwrap_or_default();
+                    eprintln!("INCONCLUSIVE: worker panicked outside a library call: {msg}");
+                    std::process::exit(2);
+                }
+            }
+        }
+    });
+    total
+}
+
+/// Post-minimisation (also used for fuzzer-found inputs): delete op chunks, zero bytes, lower
+/// capacity / universe, as long as the case keeps failing.
+fn ddmin(mut case: Case, prop: Prop, camp: &Campaign, known: &Known) -> Case {
+    let fails = |c: &Case| matches!(evaluate(c, prop, camp, None, known), Verdict::Fail(..));
+    if !fails(&case) {
+        return case;
+    }
+    let mut budget = 4000;
+    let mut chunk = (case.ops.len() / 2).max(1);
+    while chunk >= 1 && budget > 0 {
+        let mut i = 0;
+        let mut progressed = false;
+        while i < case.ops.len() && budget > 0 {
+            let mut t = case.clone();
+            let end = (i + chunk).min(t.ops.len());
+            t.ops.drain(i..end);
+            budget -= 1;
+            if fails(&t) {
+                case = t;
+                progressed = true;
+            } else {
+                i += chunk;
+            }
+        }
+        if !progressed {
+            if chunk == 1 {
+                break;
+            }
+            chunk /= 2;
+        }
+    }
+    for i in 0..case.ops.len() {
+        for b in 1..4 {
+            if case.ops[i][b] != 0 && budget > 0 {
+                let mut t = case.clone();
+                t.ops[i][b] = 0;
+                budget -= 1;
+                if fails(&t) {
+                    case = t;
+                }
+            }
+        }
+    }
+    while case.cap > 0 && budget > 0 {
+        let mut t = case.clone();
+        t.cap -= 1;
+        t.univ = t.univ.min(univ_for(capacity_of(&t), 3));
+        budget -= 1;
+        if fails(&t) {
+            case = t;
+        } else {
+            break;
+        }
+    }
+    while case.univ > 1 && budget > 0 {
+        let mut t = case.clone();
+        t.univ -= 1;
+        budget -= 1;
+        if fails(&t) {
+            case = t;
+        } else {
+            break;
+        }
+    }
+    case
+}
+
+fn trace_of(case: &Case, armed: Prop) -> Vec<String> {
+    let cx = exec(case, armed, true);
+    let mut t = cx.trace.unwrap_or_default();
+    if let Some(v) = cx.viol {
+        t.push(format!("verdict: VIOLATION {v}"));
+    } else {
+        t.push("verdict: held".to_string());
+    }
+    t
+}
+
+fn write_replay(prop: Prop, case: &Case, msg: &str) -> PathBuf {
+    let dir = verif_dir().join("replays");
+    let _ = std::fs::create_dir_all(&dir);
+    let path = dir.join(format!("{}-{:016x}.case", prop.name(), case.hash64()));
+    let mut comments = vec![format!("violation: {msg}"), format!("capacity N = {}", capacity_of(case))];
+    comments.extend(trace_of(case, prop));
+    let _ = std::fs::write(&path, case.to_text(&comments));
+    path
+}
+
+fn replay_corpus(prop: Prop, agg: &mut Agg, known: &Known) {
+    let dir = verif_dir().join("corpus").join(prop.name());
+    let Ok(rd) = std::fs::read_dir(&dir) else { return };
+    let mut files: Vec<PathBuf> = rd.filter_map(|e| e.ok().map(|e| e.path())).filter(|p| p.extension().map(|e| e == "case").unwrap_or(false)).collect();
+    files.sort();
+    for f in files {
+        let Ok(t) = std::fs::read_to_string(&f) else { continue };
+        let Ok(mut case) = Case::from_text(&t) else {
+            eprintln!("warning: cannot parse {}", f.display());
+            continue;
+        };
+        case.prop = prop;
+        let cx = exec(&case, prop, false);
+        agg.absorb_ctx(&case, &cx, prop);
+        agg.cases += 1;
+        if let Some(v) = cx.viol {
+            let sig = cx.sig.unwrap_or_default();
+            if let Some(w) = known.matches(prop, &sig) {
+                agg.known_hits.push(format!("{sig}: {w}"));
+            } else if agg.violation.is_none() {
+                agg.violation = Some((case, v, sig));
+            }
+        }
+    }
+}
+
+fn main() {
+    std::panic::set_hook(Box::new(|_| {}));
+    let args: Vec<String> = std::env::args().collect();
+    if args.len() < 3 {
+        eprintln!("usage: runner <Cxx> quick|thorough | runner <Cxx> --replay <file>");
+        std::process::exit(2);
+    }
+    let Some(prop) = Prop::parse(&args[1]) else {
+        eprintln!("unknown property {}", args[1]);
+        std::process::exit(2);
+    };
+    let known = load_known();
+    if args[2] == "--replay" {
+        let path = args.get(3).expect("replay file");
+        let t = std::fs::read_to_string(path).expect("cannot read replay file");
+        let mut case = Case::from_text(&t).expect("cannot parse replay file");
+        case.prop = prop;
+        let tr = trace_of(&case, prop);
+        for l in &tr {
+            println!("{l}");
+        }
+        let cx = exec(&case, prop, false);
+        if let Some(v) = cx.viol {
+            println!("violated: {v}");
+            println!("VIOLATION property={} replay={}", prop.name(), path);
+            std::process::exit(1);
+        }
+        println!("replay: property {} held on this case", prop.name());
+        std::process::exit(0);
+    }
+    if args[2] == "--dump" {
+        // dump N generated cases (for Miri / fuzz seed corpora): runner Cxx --dump <dir> <count>
+        let dir = PathBuf::from(args.get(3).expect("dir"));
+        let count: usize = args.get(4).and_then(|s| s.parse().ok()).unwrap_or(50);
+        dump_cases(prop, &dir, count);
+        std::process::exit(0);
+    }
+    let tier = args[2].as_str();
+    let seed: u64 = std::env::var("VERIF_SEED").ok().and_then(|s| s.parse::<i64>().ok()).map(|x| x as u64).unwrap_or(1);
+    let t0 = Instant::now();
+    let mut agg = Agg::new();
+    let mut campaign_notes: Vec<String> = Vec::new();
+    replay_corpus(prop, &mut agg, &known);
+    let corpus_cases = agg.cases;
+    let mut exhaustive_note: Option<String> = None;
+    if agg.violation.is_none() {
+        if let Some((a, note)) = enumerate::run(prop, tier, &known) {
+            campaign_notes.push(format!("enumeration: {note} ({} cases)", a.cases));
+            exhaustive_note = Some(note);
+            agg.merge(a);
+        }
+    }
+    if agg.violation.is_none() {
+        let stop = AtomicBool::new(false);
+        for (ci, camp) in campaigns(prop).iter().enumerate() {
+            let a = run_campaign(prop, camp, tier, seed, ci, &stop, &known);
+            campaign_notes.push(format!("{}: {} cases, {} executions, {} distinct non-trivial", camp.name, a.cases, a.evaluations, a.nt.len()));
+            agg.merge(a);
+            if agg.violation.is_some() {
+                break;
+            }
+        }
+    }
+    let wall = t0.elapsed().as_secs_f64();
+    // known findings
+    let mut kh: Vec<String> = agg.known_hits.clone();
+    kh.sort();
+    kh.dedup();
+    for k in &kh {
+        println!("KNOWN-FINDING: property={} {}", prop.name(), k);
+    }
+    let mut replay_path: Option<PathBuf> = None;
+    if let Some((case, msg, _sig)) = &agg.violation {
+        let p = write_replay(prop, case, msg);
+        replay_path = Some(p);
+    }
+    write_evidence(prop, tier, seed, &agg, wall, corpus_cases, &campaign_notes, exhaustive_note.as_deref(), replay_path.as_deref());
+    println!(
+        "{} {}: {} executions of {} cases, {} distinct non-trivial, {} armed assertions, {:.1}s",
+        prop.name(),
+        tier,
+        agg.evaluations,
+        agg.cases,
+        agg.nt.len(),
+        agg.checks,
+        wall
+    );
+    if let Some((_, msg, _)) = &agg.violation {
+        println!("violated: {msg}");
+        println!("VIOLATION property={} replay={}", prop.name(), replay_path.unwrap().display());
+        std::process::exit(1);
+    }
+    if agg.cases > 0 && agg.discards * 2 > agg.cases {
+        println!("INCONCLUSIVE: more than half of the cases were discarded at set-up");
+        std::process::exit(2);
+    }
+    std::process::exit(0);
+}
+
+fn dump_cases(prop: Prop, dir: &Path, count: usize) {
+    let _ = std::fs::create_dir_all(dir);
+    let seed: u64 = std::env::var("VERIF_SEED").ok().and_then(|s| s.parse::<i64>().ok()).map(|x| x as u64).unwrap_or(1);
+    let camps = campaigns(prop);
+    let mut k = 0;
+    for (ci, camp) in camps.iter().enumerate() {
+        let cfg = Config { cases: 1, failure_persistence: None, rng_seed: RngSeed::Fixed(mix(seed, 777 + ci as u64)), ..Config::default() };
+        let mut runner = TestRunner::new(cfg);
+        let st = strategy(prop, camp.clone());
+        for _ in 0..count / camps.len().max(1) + 1 {
+            if let Ok(tree) = st.new_tree(&mut runner) {
+                let case = tree.current();
+                let _ = std::fs::write(dir.join(format!("{}-{:03}.case", prop.name(), k)), case.to_text(&[]));
+                let _ = std::fs::write(dir.join(format!("{}-{:03}.bin", prop.name(), k)), case.to_bytes());
+                k += 1;
+            }
+        }
+    }
+    println!("dumped {k} cases to {}", dir.display());
+}
+
+#[allow(clippy::too_many_arguments)]
+fn write_evidence(prop: Prop, tier: &str, seed: u64, agg: &Agg, wall: f64, corpus_cases: u64, notes: &[String], exhaustive: Option<&str>, replay: Option<&Path>) {
+    use json::J;
+    let mut samples: Vec<J> = Vec::new();
+    for (case, n) in agg.samples.iter().take(3) {
+        let tr = trace_of(case, prop);
+        let mut lines: Vec<J> = tr.iter().take(60).map(|l| J::S(l.clone())).collect();
+        if tr.len() > 60 {
+            lines.push(J::S(format!("... {} more lines", tr.len() - 60)));
+        }
+        samples.push(J::O(vec![
+            ("engine".into(), J::S(case.engine.name().into())),
+            ("kind".into(), J::S(mmv::case::KINDS[case.kind as usize % 6].into())),
+            ("capacity".into(), J::N(*n as f64)),
+            ("universe".into(), J::N(case.univ as f64)),
+            ("fuse".into(), J::N(case.fuse as f64)),
+            ("ops".into(), J::N(case.ops.len() as f64)),
+            ("trace".into(), J::A(lines)),
+        ]));
+    }
+    if samples.is_empty() {
+        samples.push(J::S("no non-trivial case was generated in this run".into()));
+    }
+    let mut classes: Vec<(String, J)> = Vec::new();
+    for i in 0..NS {
+        if agg.st[i] > 0 {
+            classes.push((SNAMES[i].to_string(), J::N(agg.st[i] as f64)));
+        }
+    }
+    let level = if prop == Prop::C04 { "fault_enumeration" } else { "exploration" };
+    let mut cov: Vec<(String, J)> = vec![
+        ("evaluations".into(), J::N(agg.evaluations as f64)),
+        ("generated_cases".into(), J::N(agg.cases as f64)),
+        ("distinct_nontrivial".into(), J::N(agg.nt.len() as f64)),
+        ("rule".into(), J::S(rule_text(prop).into())),
+        ("samples".into(), J::A(samples)),
+        ("armed_assertions_evaluated".into(), J::N(agg.checks as f64)),
+        ("assertions_failed_but_owned_by_other_properties".into(), J::N(agg.foreign as f64)),
+        ("discarded_setups".into(), J::N(agg.discards as f64)),
+        ("corpus_cases_replayed".into(), J::N(corpus_cases as f64)),
+        ("classes".into(), J::O(classes)),
+        ("by_kind".into(), J::O(agg.by_kind.iter().map(|(k, v)| (k.clone(), J::N(*v as f64))).collect())),
+        ("by_capacity".into(), J::O(agg.by_cap.iter().map(|(k, v)| (format!("N={k}"), J::N(*v as f64))).collect())),
+        ("campaigns".into(), J::A(notes.iter().map(|n| J::S(n.clone())).collect())),
+        ("profile".into(), J::S(if cfg!(debug_assertions) { "dev (debug assertions on)".into() } else { "release (debug assertions off)".to_string() })),
+        ("fault_positions_skipped_by_stride".into(), J::N(agg.fault_positions_skipped as f64)),
+        ("known_findings_hit".into(), J::N(agg.known_hits.len() as f64)),
+    ];
+    if let Some(e) = exhaustive {
+        cov.push(("exhaustive".into(), J::B(true)));
+        cov.push(("exhaustive_scope".into(), J::S(e.into())));
+    } else {
+        cov.push(("exhaustive".into(), J::B(false)));
+    }
+    if let Some(r) = replay {
+        cov.push(("replay".into(), J::S(r.display().to_string())));
+    }
+    let doc = J::O(vec![
+        ("property_id".into(), J::S(prop.name())),
+        ("tier".into(), J::S(tier.into())),
+        ("seed".into(), J::N(seed as i64 as f64)),
+        ("level".into(), J::S(level.into())),
+        ("coverage".into(), J::O(cov)),
+        (
+            "assumptions".into(),
+            J::A(vec![
+                J::S("capacities are the compiled list {0,1,2,3,4,6,9,17} (pairs {0,1,2,3,5}); the code has no N-specific branch other than N==0 / len==N (small-scope argument, not a proof)".into()),
+                J::S("generated search never establishes absence; histories are at most the stated length".into()),
+                J::S("the harness's own ledger, model and decoders are trusted; they were validated against deliberately broken trees (DESIGN.md section 7)".into()),
+            ]),
+        ),
+        ("wall_s".into(), J::N((wall * 1000.0).round() / 1000.0)),
+        ("violations".into(), J::N(if agg.violation.is_some() { 1.0 } else { 0.0 })),
+    ]);
+    let dir = verif_dir().join("evidence");
+    let _ = std::fs::create_dir_all(&dir);
+    let suffix = std::env::var("VERIF_EVIDENCE_SUFFIX").unwrap_or_default();
+    let mut s = String::new();
+    doc.write(&mut s, 0);
+    let _ = writeln!(s);
+    let _ = std::fs::write(dir.join(format!("{}{}.json", prop.name(), suffix)), s);
+    let _ = Engine::MapHist;
+    let _ = S::ops;
+}
